@@ -105,7 +105,8 @@ def run(replay=None):
         cases += gap_cases()
     c.samples = vlib.sample_cases(cases, c.rng, 3)
     # (2) execute on the real code
-    groups = c.go_run(".", "TestVerifC03", cases, vlib.pkg_overlay(".", "root"))
+    # measured: 3.1 M cases take ~12 min on an idle 16-core box; the go test deadline leaves room for a loaded one
+    groups = c.go_run(".", "TestVerifC03", cases, vlib.pkg_overlay(".", "root"), timeout=900 if not thorough else 5400)
     # (3) validate
     jobs = []
     for g, files in groups.items():
